@@ -121,8 +121,8 @@ def showOptNum : Option Nat → String
 def showViewErr : ViewErr → String
   | .owner => "err:InvalidAccountOwner"
   | .len => "err:InvalidAccountData"
-  | .size => "err:InvalidAccountData"
-  | .bitPattern => "err:InvalidAccountData"
+  | .size => "err:CheckedCastError"
+  | .bitPattern => "err:CheckedCastError"
   | .uninit => "err:UninitializedAccount"
 
 def showMint (m : Mint) : String :=
